@@ -54,6 +54,16 @@ Fixpoint index_from (h : list pool) (ks : list nat) (acc : hindex) : hindex * op
               end
   end.
 
+(* the read-only queries of Pools / Pool *)
+Inductive hquery :=
+| QNodeIds (did : str)             (* Pools.get_node_ids *)
+| QDelegIds                        (* Pools.get_delegation_ids *)
+| QPoolsBy (did : str)             (* Pools.get_pools_by_delegation_id *)
+| QGetStrict (pid : str)           (* Pools.get_pool_by_id(strict=True) *)
+| QValidate                        (* Pools.validate_pools *)
+| QType                            (* Pools.get_type *)
+| QPoolGet (k : nat).              (* the getters of Pool object k: type, id, delegation id, on, for, details *)
+
 Inductive hop :=
 | HNew (s : pspec)                 (* Pool(...) and the setter calls of s: a new object *)
 | HPool (k : nat) (o : pool_op)    (* a setter on object k (registered, indexed or neither) *)
@@ -61,6 +71,8 @@ Inductive hop :=
 | HIndex                           (* build_index_by_delegation_id *)
 | HInc (node : str) (dty : dtype) (items : list deleg)
                                    (* incorporate_delegation(node, a Delegations of type dty) INTO this object *)
+| HQuery (q : hquery)              (* a read-only query: the state does not change *)
+| HGetPool (pid : str)             (* get_pool_by_id (non strict): creates and registers an empty pool if absent *)
 | HGenerate                        (* generate_delegations_by_node_id *)
 | HRegroup.                        (* generate, then incorporate everything into a fresh Pools *)
 
@@ -120,6 +132,45 @@ Definition hgenerate (st : pstate) : res gmap :=
 Definition hregroup (st : pstate) : res (list pool) :=
   bind (hgenerate st) (fun g => incorporate_all (st_type st) g []).
 
+Fixpoint first_invalid (l : list pool) : option exn :=
+  match l with
+  | [] => None
+  | p :: r => match validate_pool p with Some e => Some e | None => first_invalid r end
+  end.
+
+Definition hanswer (st : pstate) (q : hquery) : val :=
+  match q with
+  | QNodeIds did =>
+      match st_index st with
+      | None => VErr (exn_name EPool)
+      | Some idx => match lookup did idx with
+                    | None => VL []
+                    | Some ks => VL (map VS (sort_strs (set_of (flat_map p_for (deref (st_heap st) ks)))))
+                    end
+      end
+  | QDelegIds =>
+      match st_index st with
+      | None => VErr (exn_name EPool)
+      | Some idx => VL (map VS (sort_strs (map fst idx)))
+      end
+  | QPoolsBy did =>
+      match st_index st with
+      | None => VErr (exn_name EPool)
+      | Some idx => match lookup did idx with
+                    | None => VNone
+                    | Some ks => VL (map (fun p => VS (p_id p)) (deref (st_heap st) ks))
+                    end
+      end
+  | QGetStrict pid =>
+      match lookup pid (st_reg st) with
+      | Some k => VOpt v_pool (nth_error (st_heap st) k)
+      | None => VNone
+      end
+  | QValidate => match first_invalid (reg_pools st) with Some e => VErr (exn_name e) | None => VB true end
+  | QType => v_dtype (st_type st)
+  | QPoolGet k => VOpt v_pool (nth_error (st_heap st) k)
+  end.
+
 Definition hstep (st : pstate) (o : hop) : pstate * val :=
   match o with
   | HNew s =>
@@ -149,6 +200,9 @@ Definition hstep (st : pstate) (o : hop) : pstate * val :=
       then let '(st1, oe) := hinc_items st node items in
            (st1, match oe with None => VB true | Some e => VErr (exn_name e) end)
       else (st, VErr (exn_name EPool))
+  | HQuery q => (st, hanswer st q)
+  | HGetPool pid =>
+      let '(st1, k) := get_or_create st pid in (st1, VOpt v_pool (nth_error (st_heap st1) k))
   | HGenerate => (st, v_res v_gmap (hgenerate st))
   | HRegroup => (st, v_res v_pools (hregroup st))
   end.
